@@ -692,7 +692,7 @@ class AssembleSim:
                     continue
                 # one side zero: other side must be explained by underflow
                 known = math.log(pb) if pf <= TINY else math.log(pf)
-                if known - theo > UNDERFLOW and theo > UNDERFLOW:
+                if theo + known > UNDERFLOW:  # detailed balance says the vanished side is exp(theo + known)
                     self.viol("detailed_balance_structural", "one direction has probability 0, the other %g" % math.exp(known),
                               x=x, y=y, interval=iv, step_type=st, temp=T)
                 self.ctx.counters.inc("underflow_skip")
